@@ -40,4 +40,8 @@ CASES = [
     dict(expect="silent", desc="add_ref: reference and subscription named first", edits=[dict(file="reactivex/internal/utils.py",
          old="        return CompositeDisposable(r.disposable, xs.subscribe(observer))",
          new="        ref = r.disposable\n        subscription = xs.subscribe(observer)\n        return CompositeDisposable(ref, subscription)")]),
+    dict(expect="silent", desc="AutoDetachObserver: both terminal handlers share a correct helper", edits=[dict(file="reactivex/observer/autodetachobserver.py",
+         old="    def on_error(self, error: Exception) -> None:\n        if self.is_stopped:\n            return\n        self.is_stopped = True\n\n        try:\n            self._on_error(error)\n        finally:\n            self.dispose()\n\n    def on_completed(self) -> None:\n        if self.is_stopped:\n            return\n        self.is_stopped = True\n\n        try:\n            self._on_completed()\n        finally:\n            self.dispose()\n", new="    def on_error(self, error: Exception) -> None:\n        self._terminate(self._on_error, error)\n\n    def on_completed(self) -> None:\n        self._terminate(self._on_completed)\n\n    def _terminate(self, handler, *args) -> None:\n        if self.is_stopped:\n            return\n        self.is_stopped = True\n\n        try:\n            handler(*args)\n        finally:\n            self.dispose()\n")]),
+    dict(expect="fire", desc="seed C02-r5/1: shared terminal helper lost its try/finally", names="W1-terminal-disposes", edits=[dict(file="reactivex/observer/autodetachobserver.py",
+         old="    def on_error(self, error: Exception) -> None:\n        if self.is_stopped:\n            return\n        self.is_stopped = True\n\n        try:\n            self._on_error(error)\n        finally:\n            self.dispose()\n\n    def on_completed(self) -> None:\n        if self.is_stopped:\n            return\n        self.is_stopped = True\n\n        try:\n            self._on_completed()\n        finally:\n            self.dispose()\n", new="    def on_error(self, error: Exception) -> None:\n        self._terminate(self._on_error, error)\n\n    def on_completed(self) -> None:\n        self._terminate(self._on_completed)\n\n    def _terminate(self, handler, *args) -> None:\n        if self.is_stopped:\n            return\n        self.is_stopped = True\n\n        handler(*args)\n        self.dispose()\n")]),
 ]
